@@ -164,15 +164,39 @@ F(c) == [msg |-> c.msg, field |-> c.field, how |-> c.how, k |-> 0]
 MsgSet(r) == {Msgs(r)[i] : i \in DOMAIN Msgs(r)}
 RawField(r, m) == IF r = "ReadSector" /\ m = "data" THEN "Bytes" ELSE "Raw"
 
+\* Two faults of one plan must write disjoint parts of the exchange: distinct fields, where the
+\* composite faults write several fields ("All": every field of the message -- for a read also the
+\* data that follows; the coherent append lie: the proof and the root as well; a coherent answer
+\* for another number of roots: the proof as well).  "Raw" acts on the encoding and composes with all.
+Wide(c, d) ==
+    \/ c.field = "All" /\ d.msg = c.msg /\ d.field # "Raw"
+    \/ c.rpc = "ReadSector" /\ c.field = "All" /\ d.msg = "data"
+    \/ c.rpc = "AppendSectors" /\ c.field = "Accepted" /\ c.how = "resign" /\ d.msg = c.msg /\ d.field \in {"SubtreeRoots", "NewMerkleRoot"}
+    \/ c.rpc = "SectorRoots" /\ c.field = "Roots" /\ c.how = "wrongCount" /\ d.msg = c.msg /\ d.field = "Proof"
+Conflict(c, d) == <<c.msg, c.field>> = <<d.msg, d.field>> \/ Wide(c, d) \/ Wide(d, c)
+
 Singles(r) == {{F(c)} : c \in Cat(r)}
-Pairs(r)   == UNION {{{F(c), F(d)} : d \in {x \in Cat(r) : <<x.msg, x.field>> # <<c.msg, c.field>>}} : c \in Cat(r)}
-Triples(r) == UNION {{p \cup {F(e)} : e \in {x \in Cat(r) : \A g \in p : <<x.msg, x.field>> # <<g.msg, g.field>>}} : p \in Pairs(r)}
+PairsC(r)  == UNION {{{c, d} : d \in {x \in Cat(r) : ~Conflict(c, x)}} : c \in Cat(r)}
+TriplesC(r) == UNION {{p \cup {e} : e \in {x \in Cat(r) : \A g \in p : ~Conflict(g, x)}} : p \in PairsC(r)}
+Pairs(r)   == {{F(c) : c \in p} : p \in PairsC(r)}
+Triples(r) == {{F(c) : c \in p} : p \in TriplesC(r)}
 Randoms(r) == {{[msg |-> m, field |-> RawField(r, m), how |-> "random", k |-> k]} : m \in MsgSet(r), k \in 1..NRandom}
 
 Plans(r) == {{}} \cup Singles(r)
                  \cup (IF MaxFaults >= 2 THEN Pairs(r) ELSE {})
                  \cup (IF MaxFaults >= 3 THEN Triples(r) ELSE {})
                  \cup Randoms(r)
+
+\* Membership in Plans(r) as a predicate (what trace validation evaluates per recorded case; Leg M
+\* checks that it agrees with the generator: PlansAgree, and ASSUME PlansExact below).
+Entry(r, f) == CHOOSE c \in Cat(r) : c.msg = f.msg /\ c.field = f.field /\ c.how = f.how
+InCat(r, f) == f.k = 0 /\ \E c \in Cat(r) : c.msg = f.msg /\ c.field = f.field /\ c.how = f.how
+InPlans(r, p) ==
+    \/ p = {}
+    \/ \E f \in p : p = {f} /\ f.how = "random" /\ f.msg \in MsgSet(r) /\ f.field = RawField(r, f.msg) /\ f.k \in 1..NRandom
+    \/ /\ Cardinality(p) <= (IF MaxFaults > 3 THEN 3 ELSE MaxFaults) /\ Cardinality(p) >= 1
+       /\ \A f \in p : InCat(r, f)
+       /\ \A f, g \in p : f # g => ~Conflict(Entry(r, f), Entry(r, g))
 
 ClassOf(r, f) ==
     IF f.how = "random" THEN "random"
@@ -243,6 +267,12 @@ HonestSucceeds == (outcome \in {"ok", "err"} /\ plan = {}) => outcome = "ok"
 
 \* the abstract client obeys the acceptance rule it is judged by
 ObeysRule == outcome \in {"ok", "err"} => outcome \in Allowed(rpc, plan)
+
+\* the membership predicate agrees with the generator of the fault space
+PlansAgree == outcome # "idle" => InPlans(rpc, plan)
+SmallRPCs == {"WriteSector", "FundAccounts", "LatestRevision", "AccountBalance"} \cap RPCs
+PlansExact == \A r \in SmallRPCs : {p \in SUBSET {F(c) : c \in Cat(r)} : InPlans(r, p)} \cup Randoms(r) = Plans(r)
+ASSUME PlansExact
 
 \* catalogue sanity: every (rpc, msg, field, how) has exactly one class; messages exist
 CatalogOK ==
